@@ -12,7 +12,7 @@ EXPLANATION = ("taxable(t) from the statement (seven earn types on IN; every OUT
                "event-set construction and the earn branch of the matcher are proved with C02's loop invariant (see C02 evidence).")
 TRUSTED = ["A-ANNOT", "A-REAL (one product fee*spot)", "amounts lie on the 1e-11 grid (documented format; established by the parser, C11)",
            "dateutil.parser.parse assumed total-or-raising", "Configuration membership sets as parsed"]
-ASSUMPTIONS = TRUSTED
+ASSUMPTIONS = TRUSTED + ["engine hand-over (get_next_taxable_event_and_amount): proved under engine_inv, which is assumed to hold after AccountingEngine.initialize (A-AVL), and under the assumed AVL / heap contracts of contracts/engine.py; the while loop of _create_unfiltered_gain_and_loss_set that consumes the events is bounded (C02's stand-in), not proved"]
 E2E = {"quick": 60, "thorough": 2000, "on_doubt": 400}
 TX = ["rp2.in_transaction.InTransaction", "rp2.out_transaction.OutTransaction", "rp2.intra_transaction.IntraTransaction"]
 
@@ -26,6 +26,8 @@ def items(pr):
     out.append(fn("rp2.gain_loss.GainLoss.fiat_cost_basis"))
     out.append(fn("rp2.tax_engine._create_unfiltered_taxable_event_set"))
     out.append(fn("rp2.transaction_set.TransactionSet.add_entry"))
+    # the engine hands the matcher every element of the event set, in order, none skipped (contracts/engine.py, K1: `next_event_with_its_full_amount`)
+    out.append(fn("rp2.accounting_engine.AccountingEngine.get_next_taxable_event_and_amount"))
     out.append(custom("enum_members", enum_members))
     return out
 
